@@ -85,6 +85,7 @@ def execute(rep, scen, config='default', label=''):
     obs = [None] * len(scen)
     start = 0
     crashes = 0
+    hangs = 0
     while start < len(scen) and crashes < 25:
         with open(w + '/s.txt', 'w') as f:
             for sc in scen[start:]:
@@ -110,6 +111,10 @@ def execute(rep, scen, config='default', label=''):
             err = d['stderr'].decode(errors='replace')
             kind = 'sanitizer-report' if ('Sanitizer' in err or 'runtime error' in err) else ('hang' if d['rc'] in (-14, 142) or d['timeout'] else 'driver-crash')
             rep.violation('exec:' + kind, dict(build=config, scenario=scen[bad], rc=d['rc'], stderr=err[-2500:]))
+            if kind == 'hang':
+                hangs += 1
+                if hangs >= 3:
+                    break           # every hang costs a watchdog period; three are evidence enough
         start = bad + 1
     rep.cov['driver_runs'].append(dict(build=config, label=label, scenarios=len(scen), crashes=crashes))
     import shutil
